@@ -115,6 +115,8 @@ def families():
     # an allocation whose unlink CAS loses against a concurrent insertion at the head, followed by one more allocation
     qs.append(Q("live_allocalloc_vs_dealloc_opt_sw2", ["C07"], "thorough", "live", "Optimistic", "S_HN", ALLOC_ALLOC, DEALLOC, [44, 14], 2, 1, n1=(1, 8), n2=(1, 8),
                 role="abandoned_mark", timeout=3000))
+    qs.append(Q("live_allocalloc_vs_dealloc_pess_sw2", ["C07"], "thorough", "live", "Pessimistic", "S_HN", ALLOC_ALLOC, DEALLOC, [44, 16], 2, 1, n1=(1, 8), n2=(1, 8),
+                role="abandoned_mark", timeout=3000))
     qs.append(Q("live_alloc_vs_alloc_opt_sw2", ["C07"], "thorough", "live", "Optimistic", "S_2", ALLOC, ALLOC, [24, 24], 2, 1, n1=(1, 16), timeout=2400))
     qs.append(Q("live_bump_vs_toprelease_none_sw3", ["C07"], "quick", "live", "None", "S_E", ALLOC_FREE, DEALLOC_ALLOC, [14, 14], 3, 1, n1=(1, 24)))
     qs.append(Q("live_bump_none_sw2", ["C07"], "thorough", "live", "None", "S_E", ALLOC_FREE, DEALLOC_ALLOC, [14, 14], 2, 1))
@@ -276,6 +278,8 @@ def known_match(known, pid, q, cex):
         if e.get("spin_fn") and not re.search(e["spin_fn"], sp.get("fn", "")):
             continue
         if e.get("spin_word_size") is not None and ((sp.get("word", 1 << 63) >> 32) != e["spin_word_size"]):
+            continue
+        if e.get("abandoned_mark_fn") and not (cex.get("abandoned_mark") and re.search(e["abandoned_mark_fn"], cex["abandoned_mark"].get("fn", ""))):
             continue
         if e.get("victim_last") and not re.search(e["victim_last"], cex.get("victim_last", "")):
             continue
